@@ -72,7 +72,7 @@ PROPS = {
                    'a quotient wide enough for its declared degree) and num_quotient_polys is that times num_challenges; eval_l_0_and_l_last returns '
                    '(x^n - 1)/(n(x - 1)) and (x^n - 1)/(n(gx - 1)), the filters of the first-row and last-row constraints; validate_proof_shape returns Ok only for proofs whose '
                    'quotient commitment AND quotient openings are present exactly when the STARK has quotient polynomials, in the declared number (the conditions whose absence were F8/F9), with '
-                   'trace/next openings of COLUMNS values and PUBLIC_INPUTS public inputs; Stark::fri_instance lists one oracle per commitment in the order the verifier lists the caps (trace, auxiliary iff lookups / CTLs, quotient iff there are quotient polynomials) and opens EVERY committed polynomial at zeta, the trace and auxiliary ones also at g*zeta, and the cross-table-lookup Z polynomials at 1; verify_stark_proof returns Ok only if the shape was validated and verify_stark_proof_with_challenges accepted under the challenges of a FRESH transcript derived with ignore_trace_cap = false and nothing supplied from outside (the derivation and the checks themselves are uninterpreted in that contract). The rest of the STARK verifier and the prover '
+                   'trace/next openings of COLUMNS values and PUBLIC_INPUTS public inputs; Stark::fri_instance lists one oracle per commitment in the order the verifier lists the caps (trace, auxiliary iff lookups / CTLs, quotient iff there are quotient polynomials) and opens EVERY committed polynomial at zeta, the trace and auxiliary ones also at g*zeta, and the cross-table-lookup Z polynomials at 1; verify_stark_proof returns Ok only if the shape was validated and verify_stark_proof_with_challenges accepted under the challenges of a FRESH transcript derived with ignore_trace_cap = false and nothing supplied from outside, the public inputs absorbed first and every commitment of the proof handed to the transcript function in its own slot (that function and the checks themselves are uninterpreted in that contract). The rest of the STARK verifier and the prover '
                    '(iterator pipelines) are covered by a bounded stand-in only.',
         level_note='Trusted: Verus+Z3; abstract ring for packed fields; lane-wise scalar multiplication uninterpreted. verify_stark_proof_with_challenges, '
                    'compute_quotient_polys, eval_vanishing_poly, get_challenges: bounded harness only (flat_map/chunks/Option plumbing outside the Verus subset): '
@@ -129,7 +129,7 @@ PROPS = {
                    '-> openings -> alpha -> per commit-phase cap (cap, then beta) -> final polynomial -> PoW witness -> PoW response -> query indices. '
                    'Every challenge is therefore a named function of every message absorbed before it; dropping or reordering an absorption fails a postcondition. '
                    'STARK side, entry level only: StarkProofWithPublicInputs::get_challenges absorbs the public inputs before the proof\'s own derivation and passes ignore_trace_cap through, and verify_stark_proof '
-                   'uses a fresh transcript with ignore_trace_cap = false and no supplied challenges (unit stark_shape); the derivation inside StarkProof::get_challenges is uninterpreted there.',
+                   'uses a fresh transcript with ignore_trace_cap = false and no supplied challenges; StarkProof::get_challenges hands the transcript function the trace cap unless ignore_trace_cap, the auxiliary and the quotient cap each in its own slot, the whole opening set, the commit-phase caps, the final polynomial, the PoW witness and the degree RECOVERED from the proof (unit stark_shape); the transcript function itself (the free function get_challenges of starky: iterator / closure code) is uninterpreted there.',
         level_note='Trusted: Verus+Z3; the sponge permutation is uninterpreted (that altering an absorbed element changes later challenges is the '
                    'random-oracle reading of the permutation, outside the family); FriReductionStrategy::serialize, to_fri_openings, Vec::drain/iter::repeat '
                    'adaptors assumed. Not covered: the PROVER transcript in prove_with_partition_witness (rayon/timing macros; agreement with the verifier '
